@@ -8,6 +8,9 @@ import (
 type pendingMsg struct {
 	msgChan   chan Message
 	timestamp time.Time
+	// waiting is set once a caller is blocked on msgChan. Entries that are
+	// being waited on are never discarded.
+	waiting bool
 }
 
 type pendingItem struct {
@@ -29,15 +32,22 @@ func (p pendingQueue) Swap(i, j int) {
 	p[i], p[j] = p[j], p[i]
 }
 
+// pendingOldest returns up to num of the oldest entries that nobody is waiting on.
 func pendingOldest(pending map[string]pendingMsg, num int) pendingQueue {
-	if num > len(pending) {
-		num = len(pending)
-	}
 	queue := make(pendingQueue, 0, len(pending))
 	for key, p := range pending {
+		if p.waiting {
+			continue
+		}
 		queue = append(queue, pendingItem{
 			key, p.timestamp,
 		})
+	}
+	if num > len(queue) {
+		num = len(queue)
+	}
+	if num < 0 {
+		num = 0
 	}
 	sort.Sort(queue)
 	return queue[:num]
